@@ -3,6 +3,7 @@ package props
 import (
 	"context"
 	"fmt"
+	"sort"
 	"sync"
 	"sync/atomic"
 	"time"
@@ -124,6 +125,17 @@ func init() {
 				p.Spec = engine.Spec{Mode: "custom", CustomIntervalUS: 3600_000_000, CustomRates: []int{3}, Concurrency: 4, MaxDurationMS: d, IgnoreDropped: true}
 				p.Desc = fmt.Sprintf("ended-before-start max-duration=%dms", d)
 				cse := core.MkCase("C09", "deadfirst", i, seed, p)
+				cse.TimeoutMS = 60000
+				cs = append(cs, cse)
+			}
+			// triggers exactly as the command line builds them (the mode's own builder and flags), flat profiles: what has been
+			// started so far never exceeds what the ticks so far may have asked for
+			for i := 0; i < map[string]int{"quick": 4, "thorough": 16}[tier]; i++ {
+				p := c09Params{Interval: pick(r, 200, 300, 500) * 1000, StopAt: -1, StallAt: -1, Values: []int{2 + r.IntN(5), i % 4}}
+				p.Desc = fmt.Sprintf("builder %s interval=%dms per-tick=%d", []string{"constant", "staged", "staged --startTime (a little in the past)", "ramp (flat within rounding)"}[i%4], p.Interval/1000, p.Values[0])
+				cse := core.MkCase("C09", "builder", i, seed, p)
+				cse.Race = i%2 == 0
+				cse.Procs = pick(r, 2, 16)
 				cse.TimeoutMS = 60000
 				cs = append(cs, cse)
 			}
@@ -253,7 +265,7 @@ func init() {
 			}
 			return cs
 		},
-		Kinds:  map[string]core.RunFunc{"cadence": c09Cadence, "first": c09First, "promptfirst": c09PromptFirst, "aftermath": c09Aftermath, "zero": c09Zero, "fastticks": c09FastTicks, "lasttick": c09LastTick, "filestage": c09FileStage, "deadfirst": c09DeadFirst},
+		Kinds:  map[string]core.RunFunc{"cadence": c09Cadence, "first": c09First, "promptfirst": c09PromptFirst, "aftermath": c09Aftermath, "zero": c09Zero, "fastticks": c09FastTicks, "lasttick": c09LastTick, "filestage": c09FileStage, "builder": c09Builder, "deadfirst": c09DeadFirst},
 		Floors: map[string]int64{"evaluations_checked": 300, "sum_checked_runs": 10, "first_runs": 4, "zero_runs": 4},
 	})
 }
@@ -781,4 +793,76 @@ func c09FileStage(c *core.Case, o *core.Outcome) {
 	o.AddObs("evaluations_checked", int64(nAll))
 	o.Sig("filestage:interval=%dus", p.Interval)
 	o.Sample = map[string]any{"case": p.Desc, "evaluations": nAll, "requested": all, "started": su + fa, "dropped": dr}
+}
+
+// c09Builder: a trigger built by the mode's own command-line builder from flags, with a flat profile of v per tick, plenty
+// of workers and instant bodies, run for about seven intervals. Tick k is due no earlier than k intervals after triggering
+// started, so at every instant x after that start at most v*(1+floor(x/interval)) iterations can have been started.
+func c09Builder(c *core.Case, o *core.Outcome) {
+	var p c09Params
+	c.Params(&p)
+	iv := time.Duration(p.Interval) * time.Microsecond
+	v, variant := p.Values[0], p.Values[1]
+	var name string
+	var args []string
+	switch variant {
+	case 0:
+		name, args = "constant", []string{"--rate", fmt.Sprintf("%d/%s", v, iv), "--distribution", "none"}
+	case 1, 2:
+		name, args = "staged", []string{"--stages", fmt.Sprintf("0s:%d,10m:%d", v, v), "-f", iv.String(), "--distribution", "none"}
+		if variant == 2 {
+			// the layout f1 documents for this flag ends in a literal +07:00 and is read as UTC
+			args = append(args, "--startTime", time.Now().Add(-1700*time.Millisecond).UTC().Format("2006-01-02T15:04:05")+"+07:00")
+		}
+	default:
+		name, args = "ramp", []string{"--start-rate", fmt.Sprintf("%d/%s", v, iv), "--end-rate", fmt.Sprintf("%d/%s", v+1, iv), "--ramp-duration", "10h", "--distribution", "none"}
+	}
+	l := engine.NewLog()
+	var mu sync.Mutex
+	var tStart time.Time
+	var starts []time.Duration
+	scenario := func(t *f1testing.T) f1testing.RunFn {
+		return func(t *f1testing.T) {
+			now := time.Now()
+			mu.Lock()
+			if !tStart.IsZero() {
+				starts = append(starts, now.Sub(tStart))
+			} else {
+				starts = append(starts, -1)
+			}
+			mu.Unlock()
+		}
+	}
+	hooks := &engine.Hooks{OnTrigger: func(context.Context) { mu.Lock(); tStart = time.Now(); mu.Unlock() }}
+	spec := engine.Spec{Mode: "builder", BuilderName: name, BuilderArgs: args, Concurrency: 64, MaxDurationMS: int(7*iv/time.Millisecond) + 50, IgnoreDropped: true}
+	r := engine.Execute(context.Background(), spec, l, scenario, hooks, nil)
+	if r.NewErr != nil {
+		o.Violate("builder-rejected:"+p.Desc, "valid flags %v rejected by the %s builder: %v", args, name, r.NewErr)
+		return
+	}
+	mu.Lock()
+	defer mu.Unlock()
+	o.Events = int64(len(starts))
+	per := v
+	if name == "ramp" {
+		per = v + 1
+	}
+	sort.Slice(starts, func(i, j int) bool { return starts[i] < starts[j] })
+	for i, x := range starts {
+		if x < 0 {
+			o.Violate("builder-early:"+p.Desc, "an iteration started before triggering had (%s %v)", name, args)
+			return
+		}
+		if allowed := per * (1 + int(x/iv)); i+1 > allowed {
+			o.Violate("builder-cadence:"+p.Desc, "%d iterations had been started %v after triggering started; ticks of at most %d, one at once and one per %v, allow %d by then (%s %v)", i+1, x, per, iv, allowed, name, args)
+			return
+		}
+	}
+	if len(starts) < 3*v {
+		o.Inconc("only %d iterations started (%s)", len(starts), p.Desc)
+		return
+	}
+	o.AddObs("evaluations_checked", int64(len(starts)/max(v, 1)))
+	o.Sig("builder:%s:variant=%d", name, variant)
+	o.Sample = map[string]any{"case": p.Desc, "args": args, "iterations": len(starts)}
 }
